@@ -21,13 +21,19 @@ def handle(job):
        "lr_sched": "none" if cfg["lrs"] == "const" else "lin8", "SF": cfg["SF"], "PF": cfg["PF"] if so == "shampoo" else cfg["SF"],
        "decay": dy(cfg["b2"]), "block_size": geo["block"], "merge_dims": geo["merge"], "rank": geo.get("rank", 2),
        "graft_eps": 1e-10, "sk_eps": geo.get("sk_eps", 1e-7), "sk_rel": geo.get("sk_rel", True),
-       "skip_rank1": True, "skip_dim_gt": geo.get("skip_dim_gt", 4096), "add_ggt": geo.get("add_ggt", False)}
+       "skip_rank1": True, "skip_dim_gt": geo.get("skip_dim_gt", 4096), "add_ggt": geo.get("add_ggt", False),
+       "multiply_by_parameter_scale": bool(geo.get("mbps", False))}
   mism, worst = [], {"update": 0.0, "lr_linearity_ulps": 0.0}
   tol = 1e-9 if x64 else 1e-4
   try:
     import jax.numpy as jnp
-    r = tfrun.Runner(o, shapes, seed, dtype=dtype)
-    r2 = tfrun.Runner(dict(o, lr=2 * o["lr"]), shapes, seed, dtype=dtype)
+    params0 = None
+    if geo.get("param_scale"):        # e.g. freshly (near-)zero initialised parameters: RMS far below 1e-3
+      rsp = np.random.RandomState(seed + 977)
+      params0 = {f"p{i}": jnp.asarray((rsp.standard_normal(s_) * geo["param_scale"]).astype(dtype))
+                 for i, s_ in enumerate(shapes)}
+    r = tfrun.Runner(o, shapes, seed, dtype=dtype, params=params0)
+    r2 = tfrun.Runner(dict(o, lr=2 * o["lr"]), shapes, seed, dtype=dtype, params=params0)
     grads = tfrun.make_grads(shapes, ["ok"] * T, seed, dtype=dtype)
     if geo.get("tie_first") and len(shapes[target]) == 2:
       # embedding-like first gradient: orthogonal one-hot columns of equal magnitude, so the singular
@@ -66,7 +72,8 @@ def handle(job):
     adaf = None
     if cfg["graft"] == "ADAFACTOR":
       import optax
-      adaf = optax.adafactor(min_dim_size_to_factor=128, decay_rate=0.75, multiply_by_parameter_scale=False,
+      adaf = optax.adafactor(min_dim_size_to_factor=128, decay_rate=0.75,
+                             multiply_by_parameter_scale=bool(geo.get("mbps", False)),
                              eps=1e-10, clipping_threshold=1.0)
       adaf_state = adaf.init(r.params[name])
     for t in range(T):
